@@ -17,6 +17,9 @@ pub fn c04(tier: Tier) -> Vec<Space> {
         field_pairs(c, variants()),
         field_triples(c, variants()),
         dense(c, variants()),
+        calendar(c),
+        text_dictionary(c, variants()),
+        list_relations(c),
         via_line(c),
     ];
     match tier {
@@ -41,7 +44,13 @@ pub fn c04(tier: Tier) -> Vec<Space> {
 
 pub fn c09(_tier: Tier) -> Vec<Space> {
     let c = cfg("C09", true);
-    vec![lengths(c), ball1_all_lengths(c, 64), dense(c, variants()), field_triples(c, variants())]
+    vec![
+        lengths(c),
+        ball1_all_lengths(c, 64),
+        dense(c, variants()),
+        field_triples(c, variants()),
+        ascii_payloads(c),
+    ]
 }
 
 pub fn c10(tier: Tier) -> Vec<Space> {
@@ -81,6 +90,7 @@ pub fn c11(tier: Tier) -> Vec<Space> {
         field_wide("MSG-FIELD-WIDE(coord)", c, variants(), sel_scaled, 19, 2, 2),
         dense(c, variants()),
         field_triples(c, variants()),
+        calendar(c),
     ];
     if tier == Tier::Thorough {
         complete_coords(c, &mut v, &[2, 21]);
@@ -106,6 +116,7 @@ pub fn c13(tier: Tier) -> Vec<Space> {
         text_trim(c, vars.clone()),
         text_lengths(c, 132),
         text_adjacent(c, vars.clone()),
+        text_dictionary(c, vars.clone()),
         dense(c, vars.clone()),
     ];
     let b = vars.iter().find(|x| x.name == "T24.B").unwrap().clone();
@@ -130,12 +141,14 @@ pub fn c14(_tier: Tier) -> Vec<Space> {
         via_line(c),
         dense(c, variants()),
         field_triples(c, variants()),
+        list_relations(c),
+        ascii_payloads(c),
     ]
 }
 
 pub fn c15(_tier: Tier) -> Vec<Space> {
     let c = cfg("C15", true);
-    vec![binary(c, 130), binary_appid(c), dense(c, variants())]
+    vec![binary(c, 130), binary_appid(c), binary_marker(c), ascii_payloads(c), dense(c, variants())]
 }
 
 pub fn c16(_tier: Tier) -> Vec<Space> {
@@ -155,6 +168,12 @@ pub fn c01_msg(tier: Tier) -> Vec<Space> {
         radio(c),
         dense(c, variants()),
         field_pairs(c, variants()),
+        field_triples(c, variants()),
+        calendar(c),
+        text_dictionary(c, variants()),
+        list_relations(c),
+        binary_marker(c),
+        ascii_payloads(c),
     ];
     if tier == Tier::Thorough {
         v.push(ball(c, 2, variants()));
@@ -174,6 +193,12 @@ pub fn c18_msg(tier: Tier) -> Vec<Space> {
         binary(c, 130),
         dense(c, variants()),
         field_pairs(c, variants()),
+        field_triples(c, variants()),
+        calendar(c),
+        text_dictionary(c, variants()),
+        list_relations(c),
+        binary_marker(c),
+        ascii_payloads(c),
     ];
     if tier == Tier::Thorough {
         v.push(ball(c, 2, variants()));
